@@ -305,14 +305,25 @@ def _judge_history(init, hist, dates):
     problem = None
     last_suffix_finding = None
     age = 0
+    ext_since_own = False  # did another process allocate since this one's last own allocation?
     for op, o in zip(hist, obs):
         if op in ("restart", "newproc"):
             age = 0
+            if op == "newproc":
+                ext_since_own = False
             continue
         age += 1
+        if op[0] == "x":
+            ext_since_own = True
+        else:
+            ext_since_own = False
         z, before, after = o
         d = _short(dates[int(op[1]) - 1])  # a<k> and x<k> both allocate on date k
         want_suffix = model.get(d, "00")
+        if want_suffix is None:  # the date's suffix space is used up
+            if not (isinstance(z, str) and z.startswith("EXC") and "Ran out" in z):
+                problem = problem or ("allocation-after-exhaustion-did-not-fail", {"op": op, "observed": z})
+            continue
         succ = ZM.successor(want_suffix)
         if isinstance(z, str) and z.startswith("EXC"):
             if succ is None and "Ran out" in z and want_suffix == "zzz":
@@ -336,7 +347,10 @@ def _judge_history(init, hist, dates):
         if after != model:
             problem = problem or ("persisted-map-differs-from-model",
                                   {"op": op, "expected": model, "observed": after})
-    key = (json.dumps(model, sort_keys=True), tuple(sorted(handed)), min(age, 1))
+    # process-local facts are part of the state: a manager that has allocated
+    # before, and a foreign allocation it has not "seen" yet, may matter to an
+    # implementation that keeps anything in memory
+    key = (json.dumps(model, sort_keys=True), tuple(sorted(handed)), min(age, 1), ext_since_own)
     return (problem or last_suffix_finding), key
 
 
